@@ -1,13 +1,310 @@
 //! C18 part `arc`: archive readers: index, dat, GameData, repository discovery, inflate life-cycle
+//!
+//! ops:
+//!   `dat <hex> <offset> [cls|any]`   dat file bytes, `SqPackData::read_from_offset(offset)`;
+//!                                    `cls` prints none/some, `any` prints `ok` for both (the Lean
+//!                                    driver appends the mode: `any` when the outcome depends on an
+//!                                    inflate result its stored-block oracle cannot decide)
+//!   `index <hex>`                    `SqPackIndex::from_existing` -> none/some
+//!   `indexq <hex> <pathhex>`         + `exists` / `find_entry` -> none | ok
+//!   `repo <namehex>`                 a directory of that name, `Repository::from_existing_expansion` -> none/some
+//!   `gd <tree> <op> <pathhex>`       synthetic installation (`rel/path:hex;rel/dir/:-;…`), GameData
+//!                                    from_existing + exists/extract -> ok
+//!   `leak <n> <dat hex> <offset>`    n failed extractions; residual live heap must not grow with n
 #![allow(unused)]
 use crate::alloc;
 use crate::c18::*;
 use crate::util::*;
 use std::io::Write;
 
-/// `None` = not an op of this part
-pub fn run(f: &[&str]) -> Option<String> {
-    None
+fn write_file(dir: &std::path::Path, rel: &str, bytes: &[u8]) -> std::path::PathBuf {
+    let p = dir.join(rel);
+    if let Some(parent) = p.parent() {
+        let _ = std::fs::create_dir_all(parent);
+    }
+    std::fs::write(&p, bytes).expect("scratch write");
+    p
 }
 
-pub fn generate(thorough: bool, seed: u64, out: &mut dyn Write) {}
+/// `None` = not an op of this part
+pub fn run(f: &[&str]) -> Option<String> {
+    match (f[0], f.len()) {
+        ("dat", 4) => {
+            let (Some(b), Ok(off)) = (unhex(f[1]), f[2].parse::<u64>()) else { return Some("bad-case".into()) };
+            let any = match f[3] {
+                "any" => true,
+                "cls" => false,
+                _ => return Some("bad-case".into()),
+            };
+            let td = TempDir::new("c18dat");
+            let p = write_file(td.path(), "000000.win32.dat0", &b);
+            let ps = p.to_str().unwrap().to_string();
+            let len = b.len();
+            drop(b);
+            Some(alloc::measured(len, move || {
+                guarded(move || {
+                    let Some(mut d) = physis::sqpack::SqPackData::from_existing(&ps) else { return "none".into() };
+                    let r = d.read_from_offset(off);
+                    if any { "ok".into() } else { cls(r) }
+                })
+            }))
+        }
+        _ => None,
+    }
+}
+
+// ------------------------------------------------------------------------------------------
+// dat seeds
+// ------------------------------------------------------------------------------------------
+
+/// raw deflate stream made of stored blocks only
+fn stored_deflate(data: &[u8], split: usize) -> Vec<u8> {
+    let mut out = vec![];
+    let chunks: Vec<&[u8]> = if data.is_empty() { vec![&data[..]] } else { data.chunks(split.max(1)).collect() };
+    for (i, c) in chunks.iter().enumerate() {
+        let last = i + 1 == chunks.len();
+        out.push(if last { 1 } else { 0 });
+        out.extend_from_slice(&(c.len() as u16).to_le_bytes());
+        out.extend_from_slice(&(!(c.len() as u16)).to_le_bytes());
+        out.extend_from_slice(c);
+    }
+    out
+}
+
+/// real raw deflate (fixed / dynamic Huffman) through zlib
+fn real_deflate(data: &[u8]) -> Vec<u8> {
+    use libz_rs_sys::*;
+    unsafe {
+        let mut strm: z_stream = std::mem::zeroed();
+        let ret = deflateInit2_(
+            &mut strm,
+            6,
+            Z_DEFLATED,
+            -15,
+            8,
+            Z_DEFAULT_STRATEGY,
+            zlibVersion(),
+            core::mem::size_of::<z_stream>() as i32,
+        );
+        assert_eq!(ret, Z_OK);
+        let mut out = vec![0u8; data.len() * 2 + 64];
+        strm.next_in = data.as_ptr() as *mut u8;
+        strm.avail_in = data.len() as u32;
+        strm.next_out = out.as_mut_ptr();
+        strm.avail_out = out.len() as u32;
+        let ret = deflate(&mut strm, Z_FINISH);
+        assert_eq!(ret, Z_STREAM_END);
+        out.truncate(strm.total_out as usize);
+        deflateEnd(&mut strm);
+        out
+    }
+}
+
+#[derive(Clone, Copy)]
+enum BlockKind {
+    Stored,
+    StoredSplit,
+    Raw,
+    Real,
+}
+
+/// one data block: header (16 bytes) + payload, padded to 128
+fn data_block(b: &mut B, kind: BlockKind, data: &[u8]) -> usize {
+    let start = b.pos();
+    b.bound();
+    b.u32(16).u32(0);
+    match kind {
+        BlockKind::Raw => {
+            b.u32(32000).u32(data.len() as u32);
+            b.raw(data, false);
+        }
+        BlockKind::Stored | BlockKind::StoredSplit | BlockKind::Real => {
+            let comp = match kind {
+                BlockKind::Stored => stored_deflate(data, 65535),
+                BlockKind::StoredSplit => stored_deflate(data, 5),
+                _ => real_deflate(data),
+            };
+            b.u32(comp.len() as u32).u32(data.len() as u32);
+            // the deflate block header and LEN/NLEN are worth corrupting
+            let p = b.pos();
+            b.raw(&comp, false);
+            for k in 0..comp.len().min(5) {
+                b.fields.push(Field { off: p + k, width: 1, be: false });
+            }
+        }
+    }
+    let pad = (128 - (b.pos() - start) % 128) % 128;
+    b.zeros(pad);
+    b.pos() - start
+}
+
+fn pad_to(b: &mut B, n: usize) {
+    if b.pos() < n {
+        let k = n - b.pos();
+        b.zeros(k);
+    }
+}
+
+/// a standard entry at `base` (junk before it)
+fn standard_seed(rng: &mut Rng, base: usize, kinds: &[BlockKind]) -> (Seed, u64) {
+    let mut b = B::new(false);
+    b.raw(&rng.bytes(base), false);
+    let datas: Vec<Vec<u8>> = kinds.iter().map(|_| rng.bytes(rng.clone().range(6, 40) as usize)).collect();
+    let header_size = 128u32;
+    b.bound();
+    b.u32(header_size).u32(2).u32(datas.iter().map(|d| d.len() as u32).sum());
+    b.u32(0).u32(0).u32(kinds.len() as u32);
+    // block table: offset i32 + 4 bytes (compressed size u16, decompressed size u16)
+    let table = b.pos();
+    for _ in kinds {
+        b.u32(0).u16(0).u16(0);
+    }
+    pad_to(&mut b, base + header_size as usize);
+    let mut off = 0usize;
+    for (i, (k, d)) in kinds.iter().zip(datas.iter()).enumerate() {
+        let o = (off as u32).to_le_bytes();
+        b.v[table + i * 8..table + i * 8 + 4].copy_from_slice(&o);
+        off += data_block(&mut b, *k, d);
+    }
+    b.bound();
+    b.raw(&rng.bytes(7), false);
+    (b.seed("dat"), base as u64)
+}
+
+/// a model entry: stack, runtime, vertex/index blocks for up to 3 LODs
+fn model_seed(rng: &mut Rng, base: usize, nums: [u16; 11], kind: BlockKind) -> (Seed, u64) {
+    let mut b = B::new(false);
+    b.raw(&rng.bytes(base), false);
+    let header_size = 256u32;
+    b.bound();
+    b.u32(header_size).u32(3).u32(0x1000);
+    let total: usize = nums.iter().map(|x| *x as usize).sum();
+    b.u32(total as u32).u32(total as u32).u32(5);
+    // uncompressed / compressed sizes (not used by the reader)
+    for _ in 0..22 {
+        b.u32(64);
+    }
+    // offsets: filled in below
+    let offs = b.pos();
+    for _ in 0..11 {
+        b.u32(0);
+    }
+    // index: running block index per section
+    let mut run = 0u16;
+    for n in nums {
+        b.u16(run);
+        run += n;
+    }
+    for n in nums {
+        b.u16(n);
+    }
+    b.u16(1).u16(1).u8(1).u8(0).u8(0).u8(0);
+    b.bound();
+    // compressed block sizes table (u16 each), patched below
+    let table = b.pos();
+    for _ in 0..total {
+        b.u16(0);
+    }
+    pad_to(&mut b, base + header_size as usize);
+    let mut blk = 0usize;
+    for (sec, n) in nums.iter().enumerate() {
+        let o = ((b.pos() - base - header_size as usize) as u32).to_le_bytes();
+        b.v[offs + sec * 4..offs + sec * 4 + 4].copy_from_slice(&o);
+        for _ in 0..*n {
+            let d = rng.bytes(rng.clone().range(4, 24) as usize);
+            let sz = data_block(&mut b, kind, &d);
+            let s = (sz as u16).to_le_bytes();
+            b.v[table + blk * 2..table + blk * 2 + 2].copy_from_slice(&s);
+            blk += 1;
+        }
+    }
+    b.bound();
+    (b.seed("dat"), base as u64)
+}
+
+/// a texture entry: `lods` LODs of `blocks` blocks each, with a raw header of 80 bytes
+fn texture_seed(rng: &mut Rng, base: usize, lods: usize, blocks: usize, kind: BlockKind) -> (Seed, u64) {
+    let mut b = B::new(false);
+    b.raw(&rng.bytes(base), false);
+    let header_size = 128u32;
+    b.bound();
+    b.u32(header_size).u32(4).u32(0x200);
+    b.u32(0).u32(0).u32(lods as u32);
+    let lod_tab = b.pos();
+    for _ in 0..lods {
+        b.u32(0).u32(0).u32(64).u32(0).u32(blocks as u32);
+    }
+    b.bound();
+    // per-block sizes (i16 each)
+    let table = b.pos();
+    for _ in 0..lods * blocks {
+        b.u16(0);
+    }
+    pad_to(&mut b, base + header_size as usize);
+    // raw texture header
+    b.raw(&rng.bytes(80), false);
+    let mut blk = 0usize;
+    for l in 0..lods {
+        let start = b.pos();
+        let co = ((start - base - header_size as usize) as u32).to_le_bytes();
+        b.v[lod_tab + l * 20..lod_tab + l * 20 + 4].copy_from_slice(&co);
+        for _ in 0..blocks {
+            let d = rng.bytes(rng.clone().range(4, 24) as usize);
+            let sz = data_block(&mut b, kind, &d);
+            let s = (sz as u16).to_le_bytes();
+            b.v[table + blk * 2..table + blk * 2 + 2].copy_from_slice(&s);
+            blk += 1;
+        }
+        let cs = ((b.pos() - start) as u32).to_le_bytes();
+        b.v[lod_tab + l * 20 + 4..lod_tab + l * 20 + 8].copy_from_slice(&cs);
+    }
+    b.bound();
+    (b.seed("dat"), base as u64)
+}
+
+pub fn dat_seeds(rng: &mut Rng) -> Vec<(Seed, u64)> {
+    use BlockKind::*;
+    vec![
+        standard_seed(rng, 0, &[Stored]),
+        standard_seed(rng, 0, &[Raw]),
+        standard_seed(rng, 128, &[Stored, Raw, StoredSplit]),
+        standard_seed(rng, 0, &[Real, Stored]),
+        standard_seed(rng, 0, &[]),
+        model_seed(rng, 0, [1, 1, 1, 0, 0, 0, 0, 0, 1, 0, 0], Stored),
+        model_seed(rng, 128, [1, 2, 1, 1, 0, 0, 0, 0, 1, 1, 0], Raw),
+        model_seed(rng, 0, [0, 0, 0, 0, 0, 0, 0, 0, 0, 0, 0], Stored),
+        model_seed(rng, 0, [1, 1, 1, 1, 1, 1, 0, 2, 1, 1, 1], StoredSplit),
+        texture_seed(rng, 0, 1, 1, Stored),
+        texture_seed(rng, 128, 2, 2, Raw),
+        texture_seed(rng, 0, 3, 1, StoredSplit),
+        texture_seed(rng, 0, 0, 0, Stored),
+        texture_seed(rng, 0, 1, 2, Real),
+    ]
+}
+
+pub fn generate(thorough: bool, seed: u64, out: &mut dyn Write) {
+    let mut rng = Rng::new(seed, "C18-arc");
+    for (mut s, off) in dat_seeds(&mut rng) {
+        s.extra = off.to_string();
+        mutate(&s, &mut rng, thorough, out);
+        // the same file queried at other offsets: unaligned, past the end, at the seek limits
+        let n = s.bytes.len() as u64;
+        for o in [0u64, 1, 4, 12, 127, 128, n.saturating_sub(1), n, n + 1, n + 4096, 1 << 31, 1 << 32, (1 << 63) - 1, 1 << 63, u64::MAX - 127, u64::MAX] {
+            if o != off {
+                emit(out, "dat", &s.bytes, &o.to_string());
+            }
+        }
+    }
+    // random blobs as dat files, with a plausible file-info prefix half of the time
+    for i in 0..(if thorough { 2000 } else { 150 }) {
+        let len = rng.range(0, 600) as usize;
+        let mut b = rng.bytes(len);
+        if i % 2 == 0 && b.len() >= 24 {
+            b[0..4].copy_from_slice(&(rng.below(200) as u32).to_le_bytes());
+            b[4..8].copy_from_slice(&(rng.range(1, 4) as u32).to_le_bytes());
+            let nb = rng.u32_edge();
+            b[20..24].copy_from_slice(&nb.to_le_bytes());
+        }
+        emit(out, "dat", &b, "0");
+    }
+}
